@@ -52,7 +52,25 @@ E2E(z) ==
         cuts \in {{}, {12}, {5}, {5, 12}, {12, 20}, {1, 2, 3}, {13}, {11, 13}}}
     \cup {Stream(<<Frame(n, 7)>>, cuts, "device", TRUE) : n \in Names \ {"f17"}, cuts \in {{}, {1}, {7}, {8}, {9}, {3, 9}}}
 
-C15Cases(z) == OneFrame(0) \cup TwoFrames(0) \cup ThreeFrames(0) \cup E2E(0)
+\* maximal frames (259 bytes) next to other requests, and many short requests sent early: the buffer then holds
+\* more than one ADU's worth of bytes (segments stay within the server's 300 byte read buffer)
+RampS(n) == [i \in 1..n |-> (i * 29 + 7) % 256]
+Big16 == TCPADU(21, 1, ReqPDU(R(16, 1, 30, 123, RampS(246), 0, 0)))
+Big15 == TCPADU(22, 1, ReqPDU(R(15, 1, 20, 1968, RampS(246), 0, 0)))
+Big23 == TCPADU(23, 1, ReqPDU(R(23, 1, 40, 2, RampS(242), 50, 121)))
+BigStreams == {<<Big16, Frame("f3", 2)>>, <<Frame("f3", 1), Big16>>, <<Big15, Frame("f5", 2)>>, <<Big23, Frame("f3", 2)>>,
+               <<Frame("f5", 1), Big23, Frame("f3", 3)>>}
+BigCuts(L) == ({{}} \cup {{a} : a \in {1, 8, 12, 20, 100, 250, 258, 259, 260, 261, 267, 270}}
+               \cup {{100, 259}, {12, 271}, {250, 262}, {259, 265}}) \cap SUBSET (1..(L - 1))
+Many(n) == [i \in 1..n |-> Frame("f3", 100 + i)]
+Big(z) ==
+    UNION {{Stream(fs, cuts, "device", FALSE) : cuts \in {x \in BigCuts(Len(Cat(fs, 1))) :
+                \A i \in 1..Len(Lens(Len(Cat(fs, 1)), x)) : Lens(Len(Cat(fs, 1)), x)[i] <= 300}} : fs \in BigStreams}
+    \cup {Stream(Many(n), cuts, "device", FALSE) : n \in {21, 22, 25}, cuts \in {{}, {12}, {150}, {240}, {100, 200}}}
+    \cup {Stream(Many(25), cuts, "device", FALSE) : cuts \in {{252}, {264}, {276}}}
+    \cup {Stream(fs, cuts, "device", TRUE) : fs \in {<<Big16, Frame("f3", 2)>>, Many(25)}, cuts \in {{}, {259}, {250}}}
+
+C15Cases(z) == OneFrame(0) \cup TwoFrames(0) \cup ThreeFrames(0) \cup E2E(0) \cup Big(0)
 
 ----------------------------------------------------------------------------
 Hdr(tid, len, unit) == U16(tid) \o <<0, 0>> \o U16(len) \o <<unit>>
